@@ -46,11 +46,18 @@ WIRES = {
     "C17": [("C17-NO-RAW-ARRAY", 'wave2_nio.no_raw_array_rule(run, f, "C17-NO-RAW-ARRAY")'),
             ("C17-INDEX-ADVANCES", 'wave2_nio.index_advances_rule(run, f, "C17-INDEX-ADVANCES")'),
             ("C17-HEAD-UNUSED-AFTER-SUCCESS", 'wave2_nio.no_reissue_while_head_wrong_rule(run, f, "C17-HEAD-UNUSED-AFTER-SUCCESS")')],
-    "C20": [("C20-POLL-EVERY-ROUND", 'wave2.poll_every_round_rule(run, f, "C20-POLL-EVERY-ROUND")')],
-    "C24": [("C24-FAULT-SIGNALS-UNBLOCKED", 'wave2.fault_signals_unblocked_rule(run, f, "C24-FAULT-SIGNALS-UNBLOCKED")')],
+    "C18": [("C18-MODE-WRITERS", 'wave3.mode_writers_rule(run, f, "C18-MODE-WRITERS")')],
+    "C19": [("C19-WRITERS", 'wave3.limit_writers_rule(run, f, "C19-WRITERS")')],
+    "C21": [("C21-INNER-REACHES-OS", 'wave3.inner_reaches_os_rule(run, f, "C21-INNER-REACHES-OS")')],
+    "C20": [("C20-POLL-EVERY-ROUND", 'wave2.poll_every_round_rule(run, f, "C20-POLL-EVERY-ROUND")'),
+            ("C20-FRESH-EVENTS", 'wave3.fresh_events_rule(run, f, "C20-FRESH-EVENTS")')],
+    "C24": [("C24-FAULT-SIGNALS-UNBLOCKED", 'wave2.fault_signals_unblocked_rule(run, f, "C24-FAULT-SIGNALS-UNBLOCKED")'),
+            ("C24-ALWAYS-REDIRECTS", 'wave3.always_redirects_rule(run, f, "C24-ALWAYS-REDIRECTS")')],
     "C25": [("C25-DELETERS", 'wave2.local_deleters_rule(run, f, "C25-DELETERS")'),
-            ("C25-CURRENT-ENDS", 'wave2.current_ends_rule(run, f, "C25-CURRENT-ENDS")')],
-    "C26": [("C26-LOOKUP-CONSULTS-MAP", 'wave2.lookup_consults_map_rule(run, f, "C26-LOOKUP-CONSULTS-MAP")')],
+            ("C25-CURRENT-ENDS", 'wave2.current_ends_rule(run, f, "C25-CURRENT-ENDS")'),
+            ("C25-GET-CONSULTS-MAP", 'wave3.local_get_consults_map_rule(run, f, "C25-GET-CONSULTS-MAP")')],
+    "C26": [("C26-LOOKUP-CONSULTS-MAP", 'wave2.lookup_consults_map_rule(run, f, "C26-LOOKUP-CONSULTS-MAP")'),
+            ("C26-NO-REBIND", 'wave3.no_rebind_rule(run, f, "C26-NO-REBIND")')],
     "C27": [("C27-DIRECTION", 'wave2.uring_direction_rule(run, f, "C27-DIRECTION")')],
 }
 
